@@ -50,7 +50,9 @@ class Mat:
     # ---- compile commands -------------------------------------------------------------
     def argv(self, e, rnd, spell_dir=None, spell_file=None):
         spell_dir = spell_dir or (lambda d: self.dir_path(d))
-        a = [rnd.choice(["gcc", "/usr/bin/gcc", "cc"]) if False else "gcc"]
+        a = [e.get("cc", "gcc")]
+        if e.get("xflag"):
+            a.append(e["xflag"])
         if e["x"] != "U":
             a += rnd.choice([["-DX"], ["-D", "X"], ["-DX=1"]])
         for r in e["idirs"]:
@@ -67,6 +69,9 @@ class Mat:
     def database(self, ents, rnd, **kw):
         db = []
         for e in ents:
+            if e.get("ghost"):
+                ghost = os.path.join(self.root, "src", f"generated_{len(db)}.c")
+                db.append({"directory": self.root, "file": ghost, "arguments": ["gcc", "-c", ghost]})
             db.append({"directory": self.root, "file": (kw.get("spell_file") or (lambda f: self.paths[f]))(e["file"]),
                        "arguments": self.argv(e, rnd, **kw)})
         return db
